@@ -344,7 +344,9 @@ class Facts:
         self.bodies = _Bodies()
         if not os.environ.get("VERIF_NO_INLINE"):
             from . import inline as _inline
-            self.inlined = _inline.inline_new_helpers(doc)
+            prev = doc.get("_inlined") or {}
+            self.inlined = _inline.inline_new_helpers(doc) or prev
+            doc["_inlined"] = self.inlined
         for raw in doc["bodies"]:
             b = Body(raw, self)
             self.bodies[b.path] = b
